@@ -20,24 +20,8 @@ def R3 (b : Nat) (x : Int) : Prop := x % 2 = 1 ∧ 3 ≤ x ∧ x < b
 theorem mem_pyRange2_3 (b : Nat) (x : Int) : x ∈ pyRange2 3 b ↔ R3 b x := by
   rw [mem_pyRange2]; unfold R3; omega
 
-def selCubes (Lx Ly Lz : Nat) : List Coord :=
-  grid3 (pyRange2 1 (2*Lx)) (pyRange2 3 (2*Ly)) (pyRange2 3 (2*Lz)) (fun _ _ _ => true) ++
-  (grid3 (pyRange2 3 (2*Lx)) [1] (pyRange2 3 (2*Lz)) (fun _ _ _ => true) ++
-   grid3 (pyRange2 3 (2*Lx)) (pyRange2 3 (2*Ly)) [1] (fun _ _ _ => true))
-
-/-- vertices of the selected axis-0 operators -/
-def selFaces0 (Lx Ly Lz : Nat) : List Coord :=
-  grid3 (pyRange2 0 (2*Lx)) (pyRange2 2 (2*Ly)) (pyRange2 0 (2*Lz)) (fun _ _ _ => true) ++
-  grid3 (pyRange2 2 (2*Lx)) [0] (pyRange2 2 (2*Lz)) (fun _ _ _ => true)
-
-/-- vertices of the selected axis-1 operators -/
-def selFaces1 (Lx Ly Lz : Nat) : List Coord :=
-  grid3 (pyRange2 2 (2*Lx)) (pyRange2 0 (2*Ly)) (pyRange2 0 (2*Lz)) (fun _ _ _ => true) ++
-  grid3 [0] (pyRange2 0 (2*Ly)) (pyRange2 2 (2*Lz)) (fun _ _ _ => true)
-
-def selStabs (Lx Ly Lz : Nat) : List Coord :=
-  selCubes Lx Ly Lz ++
-    ((selFaces0 Lx Ly Lz).map (fun c => (0 : Int) :: c) ++ (selFaces1 Lx Ly Lz).map (fun c => (1 : Int) :: c))
+/-! `selCubes`, `selFaces0`, `selFaces1`, `selStabs`: defined in `Model/Lattices/XCubeCode.lean` (linked into
+    the driver, op `rankfamily`) -/
 
 /-- selected cube -/
 def CK (Lx Ly Lz : Nat) (x y z : Int) : Prop :=
